@@ -256,6 +256,23 @@ def _mirsym():
             ["mem_store::column::decode"], bounds="dictionary of 4 fixed strings, 2 (quick) / 3 or 9 (thorough) rows with symbolic indices and null map; packed strings of lengths (1,0,2), (2,1) (+ (254,255), () thorough) with symbolic first/last bytes; lz4 decode stubbed as 'section 0 decompresses to the packed bytes'",
             spec=sd.DecodeStrSpec(), stubs=["Codec::ops -> shape's op list", "lz4::decoder / lz4::decode -> yields the plain packed bytes", "dyn Data -> tagged sequences"])
 
+    from .specs import operators as so
+    stubs = ["Scratchpad::{get,get_mut,get_scalar,get_nullable,get_mut_nullable,get_null_map,set,set_const} -> obligation-owned buffers"]
+    add("C03.e/filter", "C03", "mirsym", Q, "Filter<i64>::execute: output == the input rows whose filter byte is non-zero, in order",
+        ["engine::operators::filter::<impl VecOperator for Filter<T>>::execute"], bounds="0,1,3 rows (quick) / 0-4,9 (thorough); data and filter bytes symbolic", spec=so.FilterSpec(), stubs=stubs)
+    add("C03.e/filter_nullable", "C03", "mirsym", Q, "FilterNullable<i64>::execute: selected rows in order, each with its NULL bit",
+        ["engine::operators::filter_nullable::<impl VecOperator for FilterNullable<T>>::execute"], bounds="0,1,3 rows (quick) / 0-4,9 (thorough); data, filter bytes and null map symbolic",
+        spec=so.FilterNullableSpec(), stubs=stubs)
+    add("C03.c/inverse_dict_lookup", "C03", "mirsym", Q,
+        "InverseDictLookup::execute translates a string constant into the dictionary-index domain such that, for every dictionary entry and OP in {=,<,<=,>,>=}: entry OP constant <=> index OP translated constant",
+        ["engine::operators::dict_lookup::<impl VecOperator for InverseDictLookup>::execute"],
+        bounds="sorted dictionaries {b}, {b,d}, {a,c,e} (+{ab,b} thorough); constants of 1 (quick) / 0-2 (thorough) symbolic bytes: present, absent below / between / above",
+        spec=so.InverseDictLookupSpec(), stubs=stubs)
+    add("C06.b/nullable_checked", "C06", "mirsym", Q,
+        "NullableCheckedBinary{,VS,SV}Operator<i64,i64,i64,Op>::execute for Op in {+,-} (quick) + {*} (thorough): Err(Overflow) iff a present row overflows, a NULL row never raises, present rows carry the exact result",
+        ["engine::operators::binary_operator::<impl VecOperator for NullableCheckedBinary*Operator>::execute", "numeric_operators::*::perform_checked"],
+        bounds="1-2 rows (quick) / 0-3, 9 rows (thorough); operands and null-map bytes symbolic", spec=so.NullableCheckedSpec(), stubs=stubs)
+
 
 _mirsym()
 
